@@ -12,7 +12,7 @@ WEIGHTS = {"set_ref": 6, "del_ref": 1, "bases": 3, "new_space": 2, "new_cells": 
 
 def swarm(rng):
     cfg = c02.swarm(rng)
-    cfg.update({"p_objref": rng.choice([0.7, 0.9]), "n_spaces": rng.choice([3, 4, 5]), "max_depth": rng.choice([2, 2, 3]),
+    cfg.update({"p_objref": rng.choice([0.7, 0.9]), "p_mirror": rng.choice([0.0, 0.4]), "n_spaces": rng.choice([3, 4, 5]), "max_depth": rng.choice([2, 2, 3]),
                 "n_cells": rng.choice([1, 2]), "n_refs": rng.choice([1, 2]), "n_steps": rng.choice([10, 16, 24]),
                 "p_sformula": rng.choice([0.3, 0.6]), "p_bases": rng.choice([0.5, 0.8]), "p_modelref": 0.1, "recalc": False,
                 "p_check": 0.0})
